@@ -392,6 +392,42 @@ fn exec(live: &mut Live, op: &Value, dict: &Dict, ev: &mut Map<String, Value>, v
                 Err(e) => res_err(e),
             }
         }
+        // ---- C04: the file is re-laid-out the way another writer might have written it, and the history
+        //      CONTINUES on the re-laid-out file.  "difat_swap": the first two DIFAT sectors trade places, so
+        //      that the DIFAT chain runs from a higher sector to a lower one (equally legal) ----
+        "relayout" => {
+            live.handles.clear();
+            let mut bytes = live.snap.bytes();
+            let u32at = |b: &[u8], o: usize| u32::from_le_bytes([b[o], b[o + 1], b[o + 2], b[o + 3]]);
+            let slen = 1usize << u32at(&bytes, 28).wrapping_shr(16).min(12);
+            let d1 = u32at(&bytes, 68) as usize;
+            if d1 >= 0xFFFF_FFF0usize || (d1 + 2) * slen > bytes.len() {
+                return json!({"k": "err", "e": "NoDifatSector"});
+            }
+            let d2 = u32at(&bytes, (d1 + 2) * slen - 4) as usize;
+            if d2 >= 0xFFFF_FFF0usize || (d2 + 2) * slen > bytes.len() {
+                return json!({"k": "err", "e": "NoDifatSector"});
+            }
+            let (o1, o2) = ((d1 + 1) * slen, (d2 + 1) * slen);
+            let s1 = bytes[o1..o1 + slen].to_vec();
+            let s2 = bytes[o2..o2 + slen].to_vec();
+            bytes[o1..o1 + slen].copy_from_slice(&s2);          // the second DIFAT sector now lives at d1
+            bytes[o2..o2 + slen].copy_from_slice(&s1);          // the first one at d2 ...
+            bytes[o2 + slen - 4..o2 + slen].copy_from_slice(&(d1 as u32).to_le_bytes());   // ... and links to d1
+            bytes[68..72].copy_from_slice(&(d2 as u32).to_le_bytes());
+            let strict = op["mode"].as_str() == Some("strict");
+            live.cf = None;
+            let b = SharedBuf::new(bytes);
+            b.ctl.lock().unwrap().chunks = live.chunks.clone();
+            live.snap = Snap::Mem(b.clone());
+            match open_with(Any::Mem(b), strict, live.maxbuf) {
+                Ok(cf) => {
+                    live.cf = Some(cf);
+                    ok(json!("unit"))
+                }
+                Err(e) => res_err(e),
+            }
+        }
         // ---- C16: a documented deviation that needs a DIFAT sector, patched into a copy of the
         //      current bytes (the file must have at least one DIFAT sector: > 109 FAT sectors) ----
         "deviate" => {
